@@ -19,6 +19,7 @@ import LfsModel.FilterProcess
 import LfsModel.CrashExec
 import LfsModel.Hooks
 import LfsModel.Track
+import LfsModel.TrackSeq
 import LfsModel.PushModel
 import LfsModel.PrePush
 import LfsModel.CredCache
@@ -402,6 +403,28 @@ def c19 : List String → String
   | ["match", n, q] => (match unhex n, unhex q with
       | some n, some q => if Trk.matchLit (Trk.lex (Trk.escapeGlob n)) q then "1" else "0"
       | _, _ => "bad-op")
+  | ["seq", lines, ops] =>
+    -- lines: `<hex pat>:<hasFilter>:<lfs>:<lockable>` ; ops: `T<n|l|u>:<hex pat>` / `U:<hex pat>`
+    let b := fun (s : String) => s == "1"
+    let pl : Option (List TrkSeq.Line) :=
+      if lines == "-" then some [] else
+      ((lines.splitOn ",").zipIdx).mapM fun (x, i) => match x.splitOn ":" with
+        | [p, hf, l, k] => (unhex p).map fun pb => (⟨pb, b hf, b l, b k, i + 1⟩ : TrkSeq.Line)
+        | _ => none
+    let po : Option (List TrkSeq.Op) :=
+      if ops == "-" then some [] else
+      (ops.splitOn ",").mapM fun x => match x.splitOn ":" with
+        | ["Tn", p] => (unhex p).map fun pb => TrkSeq.Op.track pb .none
+        | ["Tl", p] => (unhex p).map fun pb => TrkSeq.Op.track pb .lock
+        | ["Tu", p] => (unhex p).map fun pb => TrkSeq.Op.track pb .unlock
+        | ["U", p] => (unhex p).map fun pb => TrkSeq.Op.untrack pb
+        | _ => none
+    (match pl, po with
+     | some ls, some os =>
+       let r := TrkSeq.run ls os
+       if r.isEmpty then "-" else
+       String.intercalate "," (r.map fun l => s!"{hex l.pat}:{if l.lfs then 1 else 0}:{if l.lockable then 1 else 0}")
+     | _, _ => "bad-op")
   | _ => "bad-op"
 
 def parseRefs (s : String) : Option (List PushM.Ref) :=
